@@ -183,9 +183,14 @@ def _judge_with_groups(y, ref, exact, check_dtype, out=None):
     return j
 
 
+# layers that build cross-layer references with NumPy integer coordinates, and
+# fused expressions reading one source at several sites under different block maps
+_EXTRA = ["diagonal", "diagonal_off1", "trace", "vindex_pts", "sq_plus_T", "where_gt_T", "sub_T_mul", "tdot", "outer", "dot_T", "einsum_sum", "einsum_all", "diag", "tril"]
+_SQUARE = [E.src((4, 4), ((2, 2), (1, 3)))]
+
 _base = X.make(
     "C21", _judge_with_groups,
-    quick=X.std_quick(ml=False, sources=X.std_sources("quick")[1:12:3]), thorough=X.std_thorough(d3=False),
+    quick=X.std_quick(ops=OPS.REWRITE + OPS.subset(names=_EXTRA), ml=False, sources=X.std_sources("quick")[1:12:3] + _SQUARE), thorough=X.std_thorough(d3=False, sources=X.std_sources("thorough") + _SQUARE),
     rule="every program of the E1 depth<=2 space: __frisky_graph__() and __frisky_records_chunks__() either decline with NotImplementedError (counted) or yield records with unique keys, every dependency produced and declared, no cycle, every __frisky_output_keys__() key produced, and an in-process record executor (resolving TaskRefs in nested list/tuple/dict arguments) computes block values equal to __dask_graph__()'s for every output key; plus groups of 2-3 collections sharing subtrees walked with one shared `seen` set. Non-trivial = multi-block program",
     assumptions=["without the native extension every node goes through the generic GraphRecordsLayer", "programs whose dask graph itself fails are judged by C01/C04, not here"],
     floors={"record_graphs": 2000},
